@@ -33,7 +33,7 @@ def main():
         checks.append({"property_id": pid, "quick_cmd": "./check %s quick" % pid, "thorough_cmd": "./check %s thorough" % pid,
             "evidence_file": "evidence/%s.json" % pid, "replay_cmd_template": "./check %s --replay {path}" % pid, "engine": eng,
             "level_claimed": {"category": "proof", "text": text, "design_ref": "DESIGN.md section 6, " + pid},
-            "level_note": "trusted: Coq 8.16.1 kernel + vm_compute; translators tools/gen/*.py; extraction (ExtrOcamlBasic only); the Rust harness compiled into the crate's test build (hooks H1,H2,H4,H5,H6,H7); hand-written models are tied to the code by differential execution only; see DESIGN.md sections 8 and 9",
+            "level_note": "trusted: Coq 8.16.1 kernel + vm_compute; translators tools/gen/*.py; extraction (ExtrOcamlBasic only); the Rust harness compiled into the crate's test build (hooks H1,H2,H4,H5,H6,H7); hand-written models are tied to the code by differential execution, by tables regenerated from the source on every run with agreement theorems (gen_session_tables, gen_master_tables, gen_variations, gen_qualifiers, gen_functions, gen_conversions, gen_ffi, gen_link, gen_panic_sites) and, for the extraction, by an in-Coq vm_compute cross-check on a sample of every run; see DESIGN.md sections 8 and 9",
             "technique": "machine-checked proof in Coq over an executable model + model/implementation correspondence (differential execution) + direct oracle on implementation traces"})
     m["checks"] = checks
     hooks = os.popen("git -C /repo log --format='%h %s' | grep 'verif hook' | awk '{print $1}'").read().split()
